@@ -538,6 +538,16 @@ func gen(r *vh.Rand, tier string, n int, emit func(vh.Case)) {
 		if cr.Chance(1, 4) {
 			add("dns " + hexs("my-host"))
 		}
+		// single-label hyphenated names: own record yes/no x record of the un-inlined form yes/no
+		singles := []string{vh.Pick(cr, []string{"my-site", "a-b-c", "docs-v2", "x--y-z"}), vh.Pick(cr, []string{"blog-ipfs", "team-a", "q-1"})}
+		for _, sl := range singles {
+			if cr.Bool() {
+				add("dns " + hexs(sl))
+			}
+			if cr.Bool() {
+				add("dns " + hexs(uninlineRef(sl)))
+			}
+		}
 		if cr.Chance(1, 6) {
 			add("dns " + hexs(vh.Pick(cr, []string{"ipfs.io", "dweb.link", "foo.wild.test"})))
 		}
@@ -574,7 +584,16 @@ func gen(r *vh.Rand, tier string, n int, emit func(vh.Case)) {
 			}
 			ns := vh.Pick(cr, []string{"ipfs", "ipfs", "ipns", "ipns", "ipns", "p2p", "ipld", "other"})
 			id := genID(cr, names)
-			switch cr.Intn(12) {
+			switch cr.Intn(14) {
+			case 12: // single-label hyphenated DNSLink name as a path
+				q.host = gwHost
+				q.path = "/ipns/" + vh.Pick(cr, singles) + genRest(cr)
+			case 13: // … and as a subdomain label
+				q.host = vh.Pick(cr, singles) + ".ipns." + gwHost
+				q.path = genRest(cr)
+				if q.path == "" {
+					q.path = "/"
+				}
 			case 10, 11: // a path the gateway does not handle, on a gateway / DNSLink host, with or without port
 				q.host = vh.Pick(cr, append([]string{gwHost, gwHost, "unknown.example"}, names...))
 				if cr.Bool() && !strings.Contains(q.host, ":") {
@@ -766,6 +785,11 @@ func monitorRoundTrip(o *vh.Out, w *world, q reqSpec, first outcome) {
 		if got[2] != id {
 			o.Fail("roundtrip-dnslink-name", "%q came back as %q", q.path, out.seen.path)
 		}
+	} else if ns == "ipns" && rfcValidName(id) && strings.Contains(id, "-") && w.be.hasDNSLink(id) && !w.be.hasDNSLink(uninlineRef(id)) {
+		// a single-label name with its OWN DNSLink record (and none for the un-inlined spelling) is that name
+		if got[2] != id {
+			o.Fail("roundtrip-single-label-dnslink-name", "%q (record for %q, none for %q) came back as %q", q.path, id, uninlineRef(id), out.seen.path)
+		}
 	}
 }
 
@@ -821,6 +845,39 @@ func monitorURI(o *vh.Out, q reqSpec, out outcome) {
 		if out.status != 400 {
 			o.Fail("uri-bad-value-not-400", "uri=%q answered %d Location %q", v, out.status, out.rawLoc)
 		}
+	}
+}
+
+// monitor: host <label>.ipns.<gw> → content path. A label that is not a CID / peer ID, has '-' and no '.', is
+// un-inlined to the FQDN it may stand for — but when only the literal label has a DNSLink record the
+// content path must keep that name; when the un-inlined FQDN has a record the path names the FQDN.
+func monitorSubdomainLabel(o *vh.Out, w *world, q reqSpec, out outcome) {
+	suffix := ".ipns." + out.seen.host
+	eff := q.effHost()
+	if !strings.HasSuffix(eff, suffix) {
+		return
+	}
+	label := strings.TrimSuffix(eff, suffix)
+	if strings.Contains(label, ".") || !strings.Contains(label, "-") || !rfcValidName(label) {
+		return
+	}
+	if _, isCid := contentOf(label); isCid {
+		return
+	}
+	un := uninlineRef(label)
+	own, other := w.be.hasDNSLink(label), w.be.hasDNSLink(un)
+	o.Kind(fmt.Sprintf("single-label-own%d-uninlined%d", b2i(own), b2i(other)))
+	want := ""
+	switch {
+	case other:
+		want = "/ipns/" + un + q.path
+	case own:
+		want = "/ipns/" + label + q.path
+	default:
+		return // neither spelling resolves: only the error message differs
+	}
+	if out.seen.path != want {
+		o.Fail("subdomain-label-wrong-dnslink-name", "host %q (record for label: %v, for %q: %v) mapped to %q, want %q", eff, own, un, other, out.seen.path, want)
 	}
 }
 
@@ -926,6 +983,9 @@ func exec(c vh.Case, o *vh.Out) {
 					monitorDNSLinkHost(o, w, q, out)
 				}
 				if out.seen.kind == "subdomain" {
+					monitorSubdomainLabel(o, w, q, out)
+				}
+				if out.seen.kind == "subdomain" {
 					parts := strings.SplitN(out.seen.path, "/", 4)
 					if len(parts) >= 3 && parts[1] == "ipns" && strings.Contains(parts[2], ".") && !strings.Contains(strings.SplitN(q.host, ".ipns.", 2)[0], ".") {
 						o.Kind("uninlined-host")
@@ -1022,6 +1082,18 @@ func corpus() {
 		{host: "gw-a.b.multi.test", path: "/ipfs/" + c1 + "/x"},
 		{host: "a.b.deep.test:8080", path: "/ipfs/" + c1 + "/x"},
 		{host: "b.deep.test", path: "/ipfs/" + c1 + "/x"},
+	})
+	emit("single-label-four-combinations", []string{dweb, local,
+		"dns " + hexs("own-only"), "dns " + hexs("both-recs"), "dns " + hexs("both.recs"), "dns " + hexs("other.only")}, []reqSpec{
+		{host: "dweb.link", path: "/ipns/own-only/x"},
+		{host: "own-only.ipns.dweb.link", path: "/x"},
+		{host: "localhost", path: "/ipns/own-only/x", https: true},
+		{host: "dweb.link", path: "/ipns/both-recs/x"},
+		{host: "both-recs.ipns.dweb.link", path: "/x"},
+		{host: "dweb.link", path: "/ipns/other-only/x"},
+		{host: "other-only.ipns.dweb.link", path: "/x"},
+		{host: "dweb.link", path: "/ipns/no-recs/x"},
+		{host: "no-recs.ipns.dweb.link", path: "/x"},
 	})
 	emit("peer-ids", []string{dweb}, []reqSpec{
 		{host: "dweb.link", path: "/ipns/12D3KooWRBy97UB99e3J6hiPesre1MZeuNQvfan4gBziswrRJsNK/x"},
